@@ -17,13 +17,28 @@
 (* rebuilds an expression text for every state from a BFS spanning tree    *)
 (* (chains like $a | $b | $c).                                             *)
 (* A comparison ends a behaviour: res holds its boolean result.            *)
+(*                                                                         *)
+(* Besides operand SETS handed over as variables there are operands        *)
+(* spelled as PATHS and evaluated from a FOCUS (context item) that is an   *)
+(* element, not the document: absolute ones ("//*", "//@*") that move the  *)
+(* focus away while they are evaluated and relative ones ("*", "@*",       *)
+(* ".//*", "text()") that depend on it.  A op B must be the set operation /*)
+(* comparison of what A and B select FROM THE SAME FOCUS (PathAny,         *)
+(* PathCmpAny), whatever the order of an absolute and a relative operand.  *)
+(* RootWalk is an operation SEQUENCE on one dynamic context: fn:root of    *)
+(* every element and then of its attribute and namespace nodes, which the  *)
+(* implementation creates lazily, i.e. after the first fn:root call.       *)
 (***************************************************************************)
 EXTENDS XTree, TLC
 
 CONSTANTS MaxItems, ItemKinds, TextOpts, TailOpts, AttrCounts, DeclOpts,
           Variants, RootArgs, Fragments, NsArgs, MaxSibs,
           Operands,       \* names of the operand node sets, see Opnd
-          MaxSteps        \* longest operator chain
+          MaxSteps,       \* longest operator chain
+          AbsPaths,       \* absolute operand paths  (subset of {"//*", "//@*", "//text()"})
+          RelPaths,       \* relative operand paths  (subset of {"*", "@*", "text()", ".//*", "."})
+          RelRel,         \* TRUE: also pairs of two different relative operands
+          PathCmpOps      \* comparison operators asked with path operands (subset of {"is", "<<", ">>"})
 
 VARIABLES cur, res, cmp, steps, dseq, dpar, opnds
 vars == <<ivars, cur, res, cmp, steps, dseq, dpar, opnds>>
@@ -53,7 +68,7 @@ Opnd(name) ==
     [] name = "top"    -> {1}
 
 Init ==
-  /\ InputInit(MaxItems, ItemKinds, TextOpts, TailOpts, AttrCounts, DeclOpts,
+  /\ InputInit(MaxItems, ItemKinds, TextOpts, TailOpts, {FALSE}, AttrCounts, DeclOpts,
                Variants, RootArgs, Fragments, NsArgs, SibSeqs)
   /\ dseq = [j \in 1..Len(DefSeq) |-> <<DefSeq[j].k, DefSeq[j].src, DefSeq[j].sub>>]
   /\ dpar = LET S == DefSeq IN
@@ -63,6 +78,23 @@ Init ==
   /\ res = "-"
   /\ cmp = <<>>
   /\ steps = 0
+
+(* ---- path-spelled operands, evaluated from the focus f (an element rank) ---- *)
+ElemRanks == {r \in Ranks : KindR(r) = "e"}
+(* where a leading "/" starts (C01, root configurations): the document node of the tree; for an element root
+   without document the VIRTUAL document whose child is the root element (fragment=None) or, for an explicit
+   fragment, the root element itself *)
+AbsBase == IF KindR(1) = "d" THEN "doc" ELSE IF fragment = "true" THEN "frag" ELSE "virtual"
+PathSet(pn, f) ==
+  CASE pn = "//*"      -> {r \in ElemRanks : dpar[r] # 0 \/ AbsBase = "virtual"}     \* /descendant-or-self::node()/child::*
+    [] pn = "//@*"     -> {r \in Ranks : KindR(r) = "a"}
+    [] pn = "//text()" -> {r \in Ranks : KindR(r) \in {"t", "l"}}
+    [] pn = "*"        -> {r \in ElemRanks : dpar[r] = f}
+    [] pn = "@*"       -> {r \in Ranks : dpar[r] = f /\ KindR(r) = "a"}
+    [] pn = "text()"   -> {r \in Ranks : dpar[r] = f /\ KindR(r) \in {"t", "l"}}
+    [] pn = ".//*"     -> {r \in ElemRanks : f \in AncR(r)}
+    [] pn = "."        -> {f}
+MinOf(S) == CHOOSE a \in S : \A b \in S : a <= b
 
 Live == res = "-" /\ steps < MaxSteps
 Keep == UNCHANGED <<ivars, dseq, dpar, opnds>>
@@ -107,6 +139,54 @@ CmpAny == \E op \in {"is", "<<", ">>"}, a \in Ranks, b \in Ranks :
              /\ op # "<<" => (b \in {a, a + 1, 1, M} \/ b + 1 = a)
              /\ Cmp(op, a, b)
 
+(* (A) op (B) from focus f: both operands see the SAME focus *)
+PathOp(op, A, B, f) ==
+  /\ Live /\ steps = 0
+  /\ cur' = CASE op = "union"     -> PathSet(A, f) \cup PathSet(B, f)
+              [] op = "intersect" -> PathSet(A, f) \cap PathSet(B, f)
+              [] op = "except"    -> PathSet(A, f) \ PathSet(B, f)
+  /\ res' = "set"
+  /\ cmp' = <<"path", op, A, B, f>>
+  /\ steps' = steps + 1
+  /\ Keep
+
+MixedPairs == (AbsPaths \X RelPaths) \cup (RelPaths \X AbsPaths)
+PathAny == \E op \in {"union", "intersect", "except"},
+              pr \in MixedPairs \cup {q \in RelPaths \X RelPaths : RelRel /\ q[1] # q[2]}, f \in ElemRanks :
+             PathOp(op, pr[1], pr[2], f)
+
+(* (A)[1] op (B)[1] from focus f; the empty sequence if an operand is empty *)
+PathCmp(op, A, B, f) ==
+  /\ Live /\ steps = 0
+  /\ LET SA == PathSet(A, f)  SB == PathSet(B, f) IN
+     IF SA = {} \/ SB = {}
+     THEN res' = "empty" /\ cur' = {}
+     ELSE LET a == MinOf(SA)  b == MinOf(SB) IN
+          /\ res' = IF (CASE op = "is" -> a = b [] op = "<<" -> a < b [] op = ">>" -> a > b) THEN "true" ELSE "false"
+          /\ cur' = {a, b}
+  /\ cmp' = <<"pathcmp", op, A, B, f>>
+  /\ steps' = steps + 1
+  /\ Keep
+
+PathCmpAny == \E op \in PathCmpOps, pr \in MixedPairs, f \in ElemRanks : PathCmp(op, pr[1], pr[2], f)
+
+(* for $e in <elements> return (root($e), $e/@*/root(), $e/namespace::*/root()) -- one dynamic context:
+   the roots in the order the calls are made (a path step removes duplicates: one root per non-empty step) *)
+RECURSIVE RootSeq(_)
+RootSeq(es) ==
+  IF es = <<>> THEN <<>>
+  ELSE LET e == Head(es)
+           at == {TopR(x) : x \in {r \in Ranks : dpar[r] = e /\ KindR(r) = "a"}}
+           ns == {TopR(x) : x \in {r \in Ranks : dpar[r] = e /\ KindR(r) = "ns"}}
+       IN <<TopR(e)>> \o AscSeq(at) \o AscSeq(ns) \o RootSeq(Tail(es))
+RootWalk ==
+  /\ Live /\ steps = 0
+  /\ cmp' = <<"rootwalk", RootSeq(AscSeq(ElemRanks))>>
+  /\ cur' = {TopR(x) : x \in Ranks}
+  /\ res' = "seq"
+  /\ steps' = steps + 1
+  /\ Keep
+
 SetOps == {"union", "intersect", "except", "rexcept"}
 Fns == {"innermost", "outermost", "root"}
 CmpOps == {"is", "<<", ">>"}
@@ -114,11 +194,14 @@ CmpOps == {"is", "<<", ">>"}
 Next == \/ \E op \in SetOps, name \in Operands : SetOp(op, name)
         \/ \E f \in Fns : Fn(f)
         \/ CmpAny
+        \/ PathAny
+        \/ PathCmpAny
+        \/ RootWalk
 
 Spec == Init /\ [][Next]_vars
 
 ---------------------------------------------------------------------------
-TypeOK == steps \in 0..MaxSteps /\ cur \subseteq Ranks /\ res \in {"-", "true", "false"}
+TypeOK == steps \in 0..MaxSteps /\ cur \subseteq Ranks /\ res \in {"-", "true", "false", "empty", "set", "seq"}
 
 (* XDM 2.4 document order stated RELATIONALLY on the tree (not by the preorder construction):
    an ancestor precedes its descendants; otherwise look at the two branches below the lowest
@@ -162,5 +245,15 @@ FnLaws == res = "-" =>
   /\ InnermostOf(I) = I /\ OutermostOf(O) = O
   /\ \A x \in cur : dpar[TopR(x)] = 0 /\ (TopR(x) = x \/ TopR(x) \in AncR(x))
 
-Laws == OrderLaw /\ SetLaws /\ FnLaws
+PathLaws == steps = 0 =>
+  /\ \A f \in ElemRanks :
+       /\ PathSet("*", f) \subseteq PathSet(".//*", f)
+       /\ PathSet(".//*", f) \subseteq ElemRanks \ {f}
+       /\ PathSet("@*", f) \subseteq PathSet("//@*", f)
+       /\ PathSet("text()", f) \subseteq PathSet("//text()", f)
+       /\ f # RootElemR => f \in PathSet("//*", f)
+       /\ PathSet("//*", f) \cup {RootElemR} = ElemRanks
+  /\ Cardinality({TopR(x) : x \in Ranks}) = 1           \* fn:root is the same node for every node of the tree
+
+Laws == OrderLaw /\ SetLaws /\ FnLaws /\ PathLaws
 =============================================================================
